@@ -5,7 +5,7 @@ from . import rtgen as R
 ID = "C11"
 THEOREMS = ['Portus.C11.resolveFields_spec', 'Portus.C11.set_program_spec', 'Portus.C11.update_field_spec', 'Portus.C11.set_program_effect', 'Portus.C11.update_field_effect', 'Portus.C11.updatable_reg_encodes', 'Portus.C06.changeprog_read_by_libccp']
 SPEC_IS_ORACLE = True
-KEEP = {"TX CP", "TX UF", "TXFAIL", "SP", "UF", "NF", "RP"}
+KEEP = {"TX CP", "TX UF", "TXFAIL", "SP", "UF", "NF", "RP", "RES"}   # RES carries late=: what a handle that outlived the runtime answers
 RELATION = "for every set_program / update_field call of a flow: the message handed to the transport (full body bytes) or nothing, and the call's result"
 RULE = 'flows whose new_flow / on_report policies call set_program and update_field with field lists of 1..3 names drawn from every register class of the selected program (control, volatile control, report, local, primitive, implicit Cwnd/Rate/Micros, reserved __names, undeclared, prefixes/extensions of declared names) in every position, unknown program names, no scope, values 0, 1, 2^31, 2^32-1, random; injected send failures. non-trivial = at least one accepted and one refused call; distinct by case line'
 EXPLANATION = "theorems: closed-form characterisation of set_program / update_field: the call succeeds iff the program is known and every field is updatable (not reserved, bound to a control register or implicit 4/5), all-or-nothing, first error wins; on success the bytes are exactly serialize(ChangeProg{sid, program uid, (register, value) pairs in order}) and the returned scope is the program's; on refusal nothing is handed to the transport; exactly one send otherwise (runUser step lemmas). The oracle is the closed form itself: the projection of the real trace must equal the model's"
